@@ -54,7 +54,8 @@ pub fn parse_value(s: &str) -> DataValue {
         Some(("x", v)) => DataValue::String(unhex_s(v)),
         Some(("b", v)) => DataValue::Bool(v == "1"),
         Some(("f", v)) => DataValue::Float(v.parse::<i64>().unwrap_or(0) as f64 / 4.0),
-        Some(("d", v)) => DataValue::Datetime(DateTime::from_timestamp_millis(v.parse().unwrap_or(0)).unwrap().fixed_offset()),
+        // `d:<milliseconds>` (UTC) or `d:<milliseconds>@<offset in minutes>`
+        Some(("d", v)) => { let (ms, off) = match v.split_once('@') { Some((a, b)) => (a, b.parse::<i32>().unwrap_or(0)), None => (v, 0) }; let utc = DateTime::from_timestamp_millis(ms.parse().unwrap_or(0)).unwrap(); DataValue::Datetime(utc.with_timezone(&FixedOffset::east_opt(off * 60).unwrap_or(FixedOffset::east_opt(0).unwrap()))) }
         Some(("l", v)) => DataValue::List(v.split('|').filter(|x| !x.is_empty()).map(parse_value).collect()),
         _ => DataValue::Null,
     }
@@ -67,7 +68,7 @@ pub fn show_value(v: &DataValue) -> String {
         DataValue::Bool(b) => format!("b:{}", *b as u8),
         DataValue::Null => "n".into(),
         DataValue::Float(f) => format!("f:{}", (*f * 4.0) as i64),
-        DataValue::Datetime(d) => format!("d:{}", d.timestamp_millis()),
+        DataValue::Datetime(d) => { let off = d.offset().local_minus_utc() / 60; if off == 0 { format!("d:{}", d.timestamp_millis()) } else { format!("d:{}@{}", d.timestamp_millis(), off) } }
         DataValue::List(l) => format!("l:{}", l.iter().map(show_value).collect::<Vec<_>>().join("|")),
     }
 }
@@ -951,7 +952,7 @@ impl Gen {
             2 => "n".to_string(),
             3 => format!("b:{}", self.rng.below(2)),
             4 => format!("f:{}", self.rng.range(-9, 9)),
-            5 => format!("d:{}", 1_600_000_000_000i64 + (self.rng.below(4) * 250 + self.rng.below(3) * 1000) as i64),
+            5 => format!("d:{}{}", 1_600_000_000_000i64 + (self.rng.below(4) * 250 + self.rng.below(3) * 1000) as i64, ["", "", "@120", "@-300", "@330", "@765"][self.rng.below(6)]),
             6 => format!("l:i:{}|s:v{}|f:{}", self.rng.below(3), self.rng.below(3), self.rng.below(8)),
             7 => format!("s:{}", ["\u{e9}t\u{e9}", "\u{1F600}", "q\"uote", "back\\slash", "semi;colon", "comma,x", "tab\tx"][self.rng.below(7)].replace(' ', "_")),
             8 => format!("i:{}", -(self.rng.below(1000) as i64)),
